@@ -159,3 +159,8 @@ Definition api_cv_realizable_secwide (v : val) : val :=
   let x := cv_input (argn 0 v) in
   let m := flat_map (may_products_secwide x) (haplotypes false (in_vars x)) in
   VL (map (fun p => ofB (mem_seq (getS p) m)) (getL (argn 1 v))).
+
+(* [x; peptides] -> [[peptide; witness] ...]  obliged derivations of all given peptides in one pass *)
+Definition api_cv_must_witnesses_of (v : val) : val :=
+  VL (map (fun qw => VL [ofS (fst qw); cv_wit (snd qw)])
+          (must_witnesses_of (cv_input (argn 0 v)) (getSS (argn 1 v)))).
